@@ -65,13 +65,20 @@ def gen_case(rng, seed, matrix=None):
     point, how = (matrix[2], matrix[3]) if matrix else rng.choice([
         ('setup', 'exit'), ('setup', 'raise'), ('process', 'exit'), ('process', 'raise'), ('process', 'stop_evt'), ('process', 'exit'), ('process', 'raise'),
         ('callable', 'raise'), ('callable', 'exit'), ('shutdown', 'exit'), ('shutdown', 'raise'), ('external-stop', 'stop_evt'), ('init', 'raise'),
-        ('init-late', 'raise'), ('init-late', 'exit'), ('init-late', 'stop_evt'), ('setup', 'stop_evt'), ('pre-run', 'stop_evt')])
+        ('init-late', 'raise'), ('init-late', 'exit'), ('init-late', 'stop_evt'), ('setup', 'stop_evt'), ('pre-run', 'stop_evt'), ('send', 'raise'), ('recv', 'raise')])
     node = p.by_id[x]
     k = rng.choice([0, 1, 5, 8, 8, 12])
     faults = []
     trigger = None          # a second filter whose clean exit makes X run its shutdown()
     if point == 'init-late':
         node['beh']['inject'] = {'point': 'init-late', 'how': how, 'k': None}
+    if point in ('send', 'recv'):
+        # the transport itself raises inside the k-th publish / the next subscriber read (quantifier: "send, recv")
+        if node['role'] == 'source':
+            point = 'send'
+        elif node['role'] == 'sink':
+            point = 'recv'
+        node['beh']['inject'] = {'point': 'process', 'how': 'fail_' + point, 'k': k}
     if point == 'pre-run':
         node['stop_preset'] = True          # the stop event is already set when run() is called (stop requested during a slow start)
     if point in ('setup', 'process', 'shutdown'):
@@ -172,7 +179,7 @@ def judge(w, scn, res):
         if kind == 'error' and ex['ev'] != 'run-raised':
             bad.append(('error-exit-returned', f'{x}: an exception at {point} but run() returned normally'))
     # ---------- propagation
-    judged = point in ('process', 'callable', 'external-stop', 'shutdown') and ex is not None and first in ends
+    judged = point in ('process', 'callable', 'external-stop', 'shutdown', 'send', 'recv') and ex is not None and first in ends
     if judged:
         # propagation is promised only once every link carries traffic: every sink has been handed frames before the first exit
         t_first = ends[first]['t']
@@ -359,7 +366,7 @@ def run_shard(ctx):
         i = 0
         for pe in POL:
             for oe in POL:
-                for point, how in [('process', 'exit'), ('process', 'raise'), ('process', 'stop_evt'), ('callable', 'raise'), ('shutdown', 'raise'), ('shutdown', 'exit'), ('setup', 'raise'), ('setup', 'exit'), ('external-stop', 'stop_evt'), ('init', 'raise'), ('init-late', 'raise'), ('init-late', 'exit'), ('init-late', 'stop_evt'), ('setup', 'stop_evt'), ('pre-run', 'stop_evt')]:
+                for point, how in [('process', 'exit'), ('process', 'raise'), ('process', 'stop_evt'), ('callable', 'raise'), ('shutdown', 'raise'), ('shutdown', 'exit'), ('setup', 'raise'), ('setup', 'exit'), ('external-stop', 'stop_evt'), ('init', 'raise'), ('init-late', 'raise'), ('init-late', 'exit'), ('init-late', 'stop_evt'), ('setup', 'stop_evt'), ('pre-run', 'stop_evt'), ('send', 'raise'), ('recv', 'raise')]:
                     for rep in range(3):
                         i += 1
                         if ctx.mine(i):
